@@ -8,19 +8,32 @@ Proof. unfold norm_act, A_EMPTY, A_DEFAULT. destruct (Nat.eqb a 0) eqn:E; [discr
 
 (* s' extends s: the log grows by a suffix, and the context is cancelled afterwards exactly
    when it was cancelled before or one of the new events cancelled it *)
+(* every callback the engine makes is handed the store of the run *)
+Definition wf_call (c : call) : Prop :=
+  match c with
+  | CPrep _ st | CPost _ st _ _ | CBPost _ st _ _ => st = VStore
+  | _ => True
+  end.
+Definition wf_events (evs : list event) : Prop := Forall (fun e => wf_call (ev_call e)) evs.
+
 Definition ext (s s' : ms) : Prop :=
-  exists evs, log s' = log s ++ evs /\ cancelled s' = cancelled s || existsb ev_cancel evs.
+  exists evs, log s' = log s ++ evs /\
+              cancelled s' = cancelled s || existsb ev_cancel evs /\ wf_events evs.
 
 Lemma ext_refl s : ext s s.
-Proof. exists []. cbn. now rewrite app_nil_r, orb_false_r. Qed.
+Proof. exists []. cbn. rewrite app_nil_r, orb_false_r. repeat split; auto. constructor. Qed.
 
 Lemma ext_trans a b c : ext a b -> ext b c -> ext a c.
-Proof. intros [e1 [H1 C1]] [e2 [H2 C2]]. exists (e1 ++ e2). split.
+Proof. intros [e1 [H1 [C1 W1]]] [e2 [H2 [C2 W2]]]. exists (e1 ++ e2). split; [|split].
   - now rewrite H2, H1, app_assoc.
-  - now rewrite C2, C1, existsb_app, orb_assoc. Qed.
+  - now rewrite C2, C1, existsb_app, orb_assoc.
+  - apply Forall_app. split; assumption. Qed.
 
 Lemma ext_cancelled s s' : ext s s' -> cancelled s = true -> cancelled s' = true.
-Proof. intros [e [_ C]] H. now rewrite C, H. Qed.
+Proof. intros [e [_ [C _]]] H. now rewrite C, H. Qed.
+
+Lemma ext_not_cancelled s s' : ext s s' -> cancelled s' = false -> cancelled s = false.
+Proof. intros E H. destruct (cancelled s) eqn:C; auto. rewrite (ext_cancelled _ _ E C) in H. discriminate. Qed.
 
 Lemma emit_spec o s c s' r :
   emit o s c = (s', r) ->
@@ -31,10 +44,10 @@ Proof.
   exists cn. auto.
 Qed.
 
-Lemma emit_ext o s c s' r : emit o s c = (s', r) -> ext s s'.
+Lemma emit_ext o s c s' r : wf_call c -> emit o s c = (s', r) -> ext s s'.
 Proof.
-  intros H. apply emit_spec in H. destruct H as [cn [_ [L C]]]. eexists. split; [exact L|].
-  cbn. now rewrite orb_false_r.
+  intros W H. apply emit_spec in H. destruct H as [cn [_ [L C]]]. eexists. split; [exact L|].
+  cbn. rewrite orb_false_r. split; auto. repeat constructor. exact W.
 Qed.
 
 Ltac inv H := inversion H; subst; clear H.
@@ -56,33 +69,33 @@ Hypothesis conc_exec_ext : forall c k st n s items s' rs,
 Lemma node_prep_ext c n s s' r : node_prep o c n s = (s', r) -> ext s s'.
 Proof.
   unfold node_prep. destruct (has_prep c); intros H;
-    [step_in H; inv H; eapply emit_ext; eauto | inv H; apply ext_refl].
+    [step_in H; inv H; eapply emit_ext; eauto; exact I || reflexivity | inv H; apply ext_refl].
 Qed.
 
 Lemma node_exec_ext c n s a s' r : node_exec o c n s a = (s', r) -> ext s s'.
 Proof.
   unfold node_exec. destruct (has_exec c); intros H;
-    [step_in H; inv H; eapply emit_ext; eauto | inv H; apply ext_refl].
+    [step_in H; inv H; eapply emit_ext; eauto; exact I || reflexivity | inv H; apply ext_refl].
 Qed.
 
 Lemma node_post_ext c n s p x s' r : node_post o c n s p x = (s', r) -> ext s s'.
 Proof.
   unfold node_post. destruct (has_post c); intros H;
-    [step_in H; inv H; eapply emit_ext; eauto | inv H; apply ext_refl].
+    [step_in H; inv H; eapply emit_ext; eauto; exact I || reflexivity | inv H; apply ext_refl].
 Qed.
 
 Lemma node_fallback_ext c n s p e s' r : node_fallback o c n s p e = (s', r) -> ext s s'.
 Proof.
   unfold node_fallback. destruct (u_fb c); intros H;
     try (inv H; apply ext_refl);
-    step_in H; inv H; eapply emit_ext; eauto.
+    step_in H; inv H; eapply emit_ext; eauto; exact I || reflexivity.
 Qed.
 
 Lemma bnode_post_ext c n s i r s' ra : bnode_post o c n s i r = (s', ra) -> ext s s'.
 Proof.
   unfold bnode_post. destruct (u_post c); intros H;
     try (inv H; apply ext_refl);
-    step_in H; inv H; eapply emit_ext; eauto.
+    step_in H; inv H; eapply emit_ext; eauto; exact I || reflexivity.
 Qed.
 
 Lemma retry_loop_ext sr sw wi c n w k : forall i s p last s' r,
@@ -93,7 +106,7 @@ Proof.
   - destruct (cancelled s) eqn:Hc; [inv H; apply ext_refl|].
     destruct (Nat.ltb 0 i && Nat.ltb 0 w).
     + destruct (emit o s (CWait n wi i)) as [sw' rw] eqn:Ew.
-      apply emit_ext in Ew.
+      apply emit_ext in Ew; [|exact I].
       destruct (cancelled sw'); [inv H; exact Ew|].
       destruct (node_exec o c n sw' p) as [s2 [x|e]] eqn:Ex; apply node_exec_ext in Ex.
       * inv H. eapply ext_trans; eauto.
